@@ -69,6 +69,9 @@ Ltac b64run :=
               | _ => lazymatch type of s with
                      | bool => b64_decide s
                      | _ => first [ match goal with H : s = _ |- _ => rewrite H end
+                                  | match goal with H : ?l = _ |- _ =>
+                                      lazymatch type of l with val _ => idtac end;
+                                      unify l s; change s with l; rewrite H end
                                   | idtac "b64run: stuck on" s; fail ]
                      end
               end
